@@ -247,6 +247,17 @@ CLAIMS["C10"]["text"] += " No continue/break jumps over the hand-back of the pop
 CLAIMS["C11"]["text"] += " The error kind raised by each integer arm is the documented one on every ordering case (OP-ERR)."
 for _c in ("C04", "C34"):
     CLAIMS[_c]["text"] += " A range-tested subscript is tested against the length of the table it indexes (INDEX-OWN-BOUND)."
+CLAIMS["C24"]["text"] += " Interface methods are looked up in an implementation by name, never by position (IFACE-DISPATCH)."
+CLAIMS["C02"]["text"] += " Operands are evaluated whether or not their value is void (VOID-EFFECTS); an if without else never yields (IF-VOID); interface dispatch is by name (IFACE-DISPATCH); the source expression of for/let/match is resolved in the enclosing scope before the construct's own variables exist (RESOLVE-ORDER)."
+CLAIMS["C21"]["text"] += " The source expression of for/let/match is resolved in the enclosing scope, before the construct's variables exist (RESOLVE-ORDER)."
+CLAIMS["C07"]["text"] += " Both ways out of a for loop drop the iterator kept on the operand stack (FOR-EPILOGUE)."
+CLAIMS["C23"]["text"] += " Early exits (`?` failure, return) and the end of the body return with the same slot count, and the epilogue follows the instance's result type (EPILOGUE)."
+CLAIMS["C20"]["text"] += " The captured-assignment diagnostic is raised for every captured variable whatever its declaration form (ASSIGN-CAPTURED)."
+CLAIMS["C19"]["text"] += " The scope walk behind the captured-assignment diagnostic tests a scope's own declarations before the lambda/task boundary (CAPTURE-WALK)."
+CLAIMS["C18"]["text"] += " Every supplied parameter is recorded as seen, required or not (ARG-MISUSE)."
+CLAIMS["C26"]["text"] += " Clone-constrained builders of the prelude store clones only (CLONE-STORE)."
+CLAIMS["C03"]["text"] += " A member assignment whose member is not a struct field is rejected before the generator computes a field index (ASSIGN-TARGET)."
+CLAIMS["C16"]["text"] += " Peephole rewrites of float arithmetic must be forms the rewrite checker can execute; a guarded algebraic identity is reported (PEEP-SOUND)."
 NOT_APPLICABLE["C33"] = "unit inference (char index vs byte offset vs token index) over lexer/parser/diagnostics needs the type-resolved MIR engine with per-field def-use; that engine was not completed in the time available, and no sound syntactic proxy was found (a name-based one would alarm on behaviour-preserving edits)"
 
 for _p in []:
